@@ -54,6 +54,10 @@ def rand_array(rng, shape, complex_):
         view = big[tuple(slice(None, None, 2) for _ in shape)]
         view[...] = a
         a = view
+    # ... and in the array type the library's own operators return: a FeArray keeps the memory layout of the array it views
+    if len(shape) == 3 and rng.random() < 0.3:
+        from EasyFEA.FEM._linalg import FeArray
+        a = FeArray.asfearray(a)
     return a
 
 
@@ -200,6 +204,54 @@ def main():
                         inv = "error: " + repr(ex)
                     expect.append((ident, s, ncol, keys, inv, Ac.data.astype(complex)))
         res.sample(dict(history=h, sim=kind, elemType=et, ops=history))
+
+    # ---------- going back and forth in the mesh history: two meshes of the same element type and the same sizes, numbered differently ----------
+    for et in (["TRI3", "QUAD4"] if args.tier == "quick" else ["TRI3", "QUAD4", "TETRA4", "TRI6"]):
+        for kind in ("thermal", "elastic"):
+            simu, mesh1 = make_sim(rng, kind, et)
+            pt = simu.problemType
+            dof_n = simu.Get_dof_n(pt)
+            mesh2 = permuted_mesh(mesh1, rng)
+            identH = dict(scenario="mesh history", elemType=et, sim=kind, ops=["assemble on mesh 1", "Save_Iter", "simu.mesh = renumbered mesh", "assemble", "Save_Iter", "Set_Iter(0)", "assemble", "Set_Iter(1)", "assemble"])
+
+            def values_for(mesh_):
+                d_ = {}
+                for g in mesh_.Get_list_groupElem(mesh_.dim):
+                    nd = g.nPe * dof_n
+                    d_[g] = (rand_array(rng, (g.Ne, nd, nd), False), rand_array(rng, (g.Ne, nd, nd), False), rand_array(rng, (g.Ne, nd, nd), False), rand_array(rng, (g.Ne, nd, 1), False))
+                return d_
+
+            def check(mesh_, d_, stage):
+                simu._harness_dict = d_
+                simu.Need_Update()
+                outs = list(simu.Get_K_C_M_F(pt))
+                ndof = mesh_.Nn * dof_n
+                for s_, A in enumerate(outs):
+                    want = dense_scatter([(g, v[s_]) for g, v in d_.items()], dof_n, ndof, s_ < 3)
+                    got = A.toarray().astype(complex)
+                    res.case(("mesh-history", et, kind, stage, s_))
+                    if got.shape != want.shape or not (np.abs(got - want).max() <= 1e-9):
+                        res.fail(f"assembly after a move in the mesh history slot={'KCMF'[s_]} sim={kind} elem={et}",
+                                 f"{stage}: {'KCMF'[s_]} of Get_K_C_M_F differs from the scatter-add of the element arrays on the current mesh "
+                                 f"(max dev {np.abs(got - want).max() if got.shape == want.shape else 'shape'})", dict(identH, stage=stage))
+                        return False
+                return True
+            try:
+                d1, d2 = values_for(mesh1), values_for(mesh2)
+                ok = check(mesh1, d1, "first assembly on mesh 1")
+                simu._harness_dict = None
+                simu.Save_Iter()
+                simu.mesh = mesh2
+                ok = ok and check(mesh2, d2, "first assembly on the renumbered mesh")
+                simu._harness_dict = None
+                simu.Save_Iter()
+                simu.Set_Iter(0)
+                ok = ok and simu.mesh is mesh1 and check(mesh1, d1, "after Set_Iter(0): back on mesh 1")
+                simu.Set_Iter(1)
+                ok = ok and check(mesh2, d2, "after Set_Iter(1): the renumbered mesh again")
+                res.count("mesh-history:" + ("ok" if ok else "failed"))
+            except Exception as ex:  # noqa: BLE001
+                res.fail(f"assembly after a move in the mesh history raises sim={kind} elem={et}", f"{type(ex).__name__}: {str(ex)[:200]}", identH)
 
     # ---------- element values in any unit system: the scatter-add is linear, a slot of tiny (or huge) entries is assembled like any other ----------
     # own random stream: the histories above and the renumbering below keep theirs
